@@ -297,9 +297,14 @@ func walkSpaces(tier string) []walkSpace {
 func enumC19(env *EnumEnv, it *WorkItem) *EnumResult {
 	res := &EnumResult{Exhaustive: true}
 	seen := map[string]bool{}
+	g := &budgetGuard{env: env, res: res}
 	for si, sp := range walkSpaces(env.Tier) {
 		n := sp.size()
+		g.phase = fmt.Sprintf("shape space %d of %d", si+1, len(walkSpaces(env.Tier)))
 		for idx := it.Shard; idx < n; idx += it.NShards {
+			if g.over() {
+				break
+			}
 			w := sp.at(idx)
 			res.Evaluations++
 			if w != (walkShape{Blocks: -1}) && w != (walkShape{}) {
